@@ -12,6 +12,7 @@ import (
 	"path/filepath"
 	"sort"
 	"strconv"
+	"strings"
 	"sync"
 	"time"
 
@@ -202,6 +203,82 @@ func c16IdleTrial(addr string, pre []byte) c16Trial {
 	return tr
 }
 
+// c16HeldUnder counts the descriptors of process pid that point below root.
+func c16HeldUnder(pid int, root string) (int, error) {
+	dir := fmt.Sprintf("/proc/%d/fd", pid)
+	ents, err := os.ReadDir(dir)
+	if err != nil {
+		return 0, err
+	}
+	n := 0
+	for _, e := range ents {
+		if l, err := os.Readlink(filepath.Join(dir, e.Name())); err == nil && (l == root || strings.HasPrefix(l, root+"/")) {
+			n++
+		}
+	}
+	return n, nil
+}
+
+// c16HeldTrial opens a file and a directory, falls silent, waits for the cut and then keeps its own
+// end of the socket open without sending anything (a hung console): the server must release what the
+// connection held all the same. Judged on the server's descriptor table; the clock only bounds the
+// wait (10 s for a 300 ms timeout, with a control connection as for the late rule).
+func c16HeldTrial(addr string, pid int, root string) c16Trial {
+	if n, err := c16HeldUnder(pid, root); err != nil || n != 0 {
+		return c16Trial{Class: "unjudged", Detail: fmt.Sprintf("descriptor table before the trial: %d below the root, err=%v", n, err)}
+	}
+	c, err := wire.Dial(addr, nil, c16CutMax)
+	if err != nil {
+		return c16Trial{Class: "unjudged", Detail: "dial: " + err.Error()}
+	}
+	defer c.Close()
+	for _, rq := range []struct {
+		r  wire.Req
+		sz int
+	}{{wire.P(wire.OpOpen, "/f.bin"), wire.SzOpen}, {wire.P(wire.OpOpenDir, "/"), wire.SzResult}} {
+		if err := c.Send(rq.r); err != nil {
+			return c16Trial{Class: "unjudged", Detail: "send: " + err.Error()}
+		}
+		if b, st := c.ReadN(rq.sz); st != wire.Full {
+			return c16Trial{Class: "unjudged", Detail: fmt.Sprintf("%v: %d response bytes, %v", rq.r, len(b), st)}
+		}
+	}
+	held, err := c16HeldUnder(pid, root)
+	if err != nil || held == 0 {
+		return c16Trial{Class: "unjudged", Detail: fmt.Sprintf("after OPEN+OPENDIR the server holds %d descriptors below the root (err=%v)", held, err)}
+	}
+	t0 := time.Now()
+	if _, st := c.ExpectEOF(); st != wire.Closed {
+		return c16Trial{Class: "unjudged", Detail: "not cut within the watchdog (judged by the idle scenario)"}
+	}
+	tr := c16Trial{DelayMs: c16ms(time.Since(t0)), Answered: held}
+	// the client socket stays open from here on
+	for time.Since(t0) < c16CutMax {
+		n, err := c16HeldUnder(pid, root)
+		if err != nil {
+			tr.Class, tr.Detail = "unjudged", err.Error()
+			return tr
+		}
+		if n == 0 {
+			tr.Class = "ok"
+			return tr
+		}
+		time.Sleep(20 * time.Millisecond)
+	}
+	n, _ := c16HeldUnder(pid, root)
+	p0 := time.Now()
+	if perr := host.Probe(addr); perr != nil {
+		tr.Class, tr.Control = "unjudged", "control connection failed: "+perr.Error()
+	} else if pd := time.Since(p0); pd > 2*time.Second {
+		tr.Class, tr.Control = "unjudged", fmt.Sprintf("control connection answered only after %v", pd)
+	} else {
+		tr.Class = "held"
+		tr.Detail = fmt.Sprintf("the client saw the cut %.0f ms after falling silent and kept its end open; %v later the server still holds %d descriptors below the root (%d right after OPEN+OPENDIR)", tr.DelayMs, time.Since(t0), n, held)
+		tr.Control = fmt.Sprintf("control connection answered in %v", pd)
+	}
+	return tr
+}
+
 // c16ActiveTrial issues STAT "/" every 100 ms for 3 s; every request must be answered.
 func c16ActiveTrial(addr string) c16Trial {
 	before := time.Now()
@@ -345,6 +422,11 @@ func c16Binary(e *Env) {
 			c16Judge(e, ch.name, "idle", baseline, cutRules, func() c16Trial { return c16IdleTrial(addr, nil) })
 			c16Judge(e, ch.name, "active", baseline, activeRules, func() c16Trial { return c16ActiveTrial(addr) })
 			c16Judge(e, ch.name, "stalled-after-7-bytes", baseline, cutRules, func() c16Trial { return c16IdleTrial(addr, partial) })
+			// last: the only scenario that reads the descriptor table, nothing else is connected to this server now
+			c16Judge(e, ch.name, "held-then-client-stays-open", baseline, map[string]string{"held": "leak-after-cut"}, func() c16Trial {
+				r, _ := filepath.EvalSymlinks(root)
+				return c16HeldTrial(addr, procs[i].Cmd.Process.Pid, r)
+			})
 		}()
 	}
 	wg.Wait()
